@@ -182,6 +182,11 @@ def finish(prop, tier, seed, mod, results, t0, update_inventory, only):
     violations = []
     known_hit = []
     os.makedirs(os.path.join(ROOT, 'replays', prop), exist_ok=True)
+    if not only:
+        # replay files describe THIS run only
+        for old in os.listdir(os.path.join(ROOT, 'replays', prop)):
+            if old.endswith('.json'):
+                os.remove(os.path.join(ROOT, 'replays', prop, old))
     for n in missing:
         path = write_replay(prop, n, dict(obligation=n, verdict='obligation disappeared: the contract no longer generates '
                                           'it (function removed/renamed or contract file edited)', witness=None))
